@@ -3,14 +3,17 @@
 Creates a scratch worktree /tmp/mut/<id> of /repo HEAD and writes /tmp/mut/prompt_<id>.txt: the
 template, the property's text (only), and the situations earlier seeded changes needed."""
 import glob, json, os, subprocess, sys
-T = open("/tmp/mut/PROMPT_TEMPLATE.txt").read()
+HERE = os.path.dirname(os.path.abspath(__file__))
+T = open(HERE + "/PROMPT_TEMPLATE.txt").read()
+PROPS = {json.loads(l)["id"]: json.loads(l) for l in open("/verif/properties.jsonl") if l.strip()}
+os.makedirs("/tmp/mut", exist_ok=True)
 for mid in sys.argv[1:]:
     prop = mid[:3]
     wt = "/tmp/mut/%s" % mid
     if not os.path.exists(wt):
         subprocess.check_call(["git", "-C", "/repo", "worktree", "add", "--detach", "-q", wt, "HEAD"])
     os.makedirs(wt + "/OUT", exist_ok=True)
-    text = open("/tmp/mut/prop_%s.txt" % prop).read()
+    text = "%s\n%s\n(%s)" % (PROPS[prop]["title"], PROPS[prop]["statement"], PROPS[prop]["quantifier"]["text"])
     prev = []
     for d in sorted(glob.glob("/verif/seeded/%s*/meta.json" % prop)) + sorted(glob.glob("/verif/seeded/revert-*/meta.json")):
         m = json.load(open(d))
